@@ -236,6 +236,15 @@ func (ux *updateTx) UpdateChainIndexElementProofs(updater wallet.ProofUpdater) e
 // should be added and any siacoin elements that were spent should be
 // removed.
 func (ux *updateTx) WalletApplyIndex(index types.ChainIndex, created, spent []types.SiacoinElement, events []wallet.Event, timestamp time.Time) error {
+	// get the balance of the existing elements that mature at this height
+	// before the elements of the block are removed and added: an element
+	// spent at its maturity height is removed below as a mature element and
+	// an element created with this maturity height is already added as one.
+	matured, err := maturedSiacoinBalance(ux.tx, index)
+	if err != nil {
+		return fmt.Errorf("failed to query matured siacoin balance: %w", err)
+	}
+
 	matureOutflow, immatureOutflow, err := deleteSiacoinElements(ux.tx, index, spent)
 	if err != nil {
 		return fmt.Errorf("failed to delete siacoin elements: %w", err)
@@ -247,11 +256,6 @@ func (ux *updateTx) WalletApplyIndex(index types.ChainIndex, created, spent []ty
 		return fmt.Errorf("failed to create wallet events: %w", err)
 	}
 
-	// get the matured balance
-	matured, err := maturedSiacoinBalance(ux.tx, index)
-	if err != nil {
-		return fmt.Errorf("failed to query matured siacoin balance: %w", err)
-	}
 	// apply the maturation by adding the matured balance to the matured inflow
 	// and the immature outflow
 	matureInflow = matureInflow.Add(matured)
